@@ -138,7 +138,8 @@ theorem CW.init_of_err (w : CW) (e : Err) (h : w.err = some e) : w.init = (w, so
   unfold CW.init; simp [h]
 
 theorem DataInv.congr_res {w : CW} (hi : DataInv w) (hin : w.initialized = true) (rcl : Array Nat) (rl : List Bytes)
-    (hr : ∀ x ∈ rcl.toList, x < 2 ^ 56 ∧ x % 2 ^ 48 ≤ w.dataSize) :
+    (hr : ∀ x ∈ rcl.toList, x < 2 ^ 56 ∧ x % 2 ^ 48 ≤ w.dataSize)
+    (hre : ResEntries w.stream (rcl.toList.drop 1) rl.reverse) :
     DataInv { w with resourcesCOffCLens := rcl, resLog := rl } := by
   constructor
   · intro h; simp only at h; rw [hin] at h; simp at h
@@ -149,6 +150,7 @@ theorem DataInv.congr_res {w : CW} (hi : DataInv w) (hin : w.initialized = true)
   · exact hi.dsize
   · exact hr
   · exact hi.live
+  · exact hre
 
 theorem CW.addResource_J (w : CW) (r : Bytes) (hJ : w.J) : (w.addResource r).1.J := by
   intro herr
@@ -184,6 +186,33 @@ theorem CW.addResource_J (w : CW) (r : Bytes) (hJ : w.J) : (w.addResource r).1.J
           simp only at j1 j2 j3 j4 j5 j6
           have hin2 : w2.initialized = true := by rw [j2]; exact i3
           apply DataInv.congr_res j1 hin2
+          rotate_left
+          · -- the new resource sits at the end of the stream
+            have hold := j1.resOK
+            have hdrop : ((if (w2.resourcesCOffCLens.size == 0) = true then #[0] else w2.resourcesCOffCLens).push
+                (w2.dataSize - r.length ||| calcCLength r.length <<< 48)).toList.drop 1 =
+                w2.resourcesCOffCLens.toList.drop 1 ++ [w2.dataSize - r.length ||| calcCLength r.length <<< 48] := by
+              by_cases h0 : (w2.resourcesCOffCLens.size == 0) = true
+              · rw [if_pos h0]
+                have : w2.resourcesCOffCLens.toList = [] := by
+                  have : w2.resourcesCOffCLens.toList.length = 0 := by simpa using h0
+                  exact List.eq_nil_of_length_eq_zero this
+                simp [this]
+              · rw [if_neg h0]
+                have hne : w2.resourcesCOffCLens.toList ≠ [] := by
+                  intro h; apply h0; simp [← Array.length_toList, h]
+                rw [Array.toList_push]
+                cases hl : w2.resourcesCOffCLens.toList with
+                | nil => exact absurd hl hne
+                | cons a as => simp
+            rw [hdrop, List.reverse_cons]
+            apply ResEntries.snoc _ _ hold
+            simp only [ResEntries, and_true]
+            refine ⟨w2.dataSize - r.length, ?_, ?_, rfl⟩
+            · have := j1.size.1; omega
+            · have e : w2.dataSize - r.length = (w1.stream ++ List.replicate k 0).length := by
+                rw [j5, i1.size.1]; simp [List.length_append]
+              rw [j4, e, List.drop_left, List.take_length]
           intro x hx
           rw [Array.toList_push, List.mem_append, List.mem_singleton] at hx
           rcases hx with hx | rfl
@@ -210,6 +239,7 @@ theorem DataInv.congr_codec {w : CW} (hi : DataInv w) (hin : w.initialized = tru
   · exact hi.dsize
   · exact hi.res
   · exact hi.live
+  · exact hi.resOK
 
 /-- the last step of `AddChunk`: a new leaf for the bytes just written -/
 theorem DataInv.push_leaf {w0 w : CW} (hi : DataInv w) (hin : w.initialized = true)
@@ -247,6 +277,7 @@ theorem DataInv.push_leaf {w0 w : CW} (hi : DataInv w) (hin : w.initialized = tr
     exact ⟨by rw [hi.dsize.1], hsum⟩
   · exact hi.res
   · intro _; exact hin
+  · exact hi.resOK
 
 theorem CW.addChunk_J (w : CW) (d codec : Nat) (primary : Bytes) (s t : Nat) (hJ : w.J) :
     (w.addChunk d codec primary s t).1.J := by
